@@ -4,7 +4,7 @@
 # stays untouched while background sweeps use it), runs the property's check against that tree
 # (VERIF_REPO), removes the worktree.  Prints CAUGHT / MISSED / BROKEN(exit 2).
 P=$(readlink -f "$1"); PROP=$2; TIER=${3:-quick}; shift; shift; shift 2>/dev/null
-cd /verif || exit 2
+cd "${VERIF_HOME:-/verif}" || exit 2
 WT=/var/tmp/mutcheck-wt-$$
 git -C /repo worktree add -q --detach $WT HEAD || exit 2
 trap 'git -C /repo worktree remove --force $WT; rm -f /tmp/mutcheck.$$.log' EXIT
